@@ -114,6 +114,13 @@ def graph(a):
         kw['label_colors'] = _colors(o['label_colors'])
     names = _names(a.get('names'))
     fn = svg_graph if a.get('alias') else visualize_graph
+    if a.get('prior') is not None:
+        # an earlier drawing of ANOTHER graph on the same nodes with the very same option objects (lists, arrays): what it does to
+        # them must not show in the drawing that follows
+        try:
+            fn(mk_matrix(a['prior']['m']), position, names, **kw)
+        except Exception:       # noqa
+            pass
     return _with_file(a, lambda filename: fn(adjacency, position, names, filename=filename, **kw))
 
 
